@@ -92,8 +92,10 @@ def charWidth : Charset → Nat
 def padToBytes (b : Bits) : List Byte :=
   bitsBytes (b ++ List.replicate ((8 - b.length % 8) % 8) false)
 
-/-- open type: content of a fresh writer as unconstrained OCTET STRING -/
-def openType (content : Bits) : Outcome Bits := wOctets none none false (padToBytes content)
+/-- open type: content of a fresh writer as unconstrained OCTET STRING; an empty content is a
+    single zero octet -/
+def openType (content : Bits) : Outcome Bits :=
+  wOctets none none false (if content.isEmpty then [0#8] else padToBytes content)
 
 /-- `write_extensible_bit_and_length_or_err` (the announced fragment size is dropped) -/
 def wExtLen (ext : Bool) (min max : Option Nat) (upperLimit len : Nat) : Outcome Bits :=
